@@ -10,7 +10,10 @@ RULE = ('cases = (function, record, dt, fractions or threshold, se in {T,F}); re
         'non-trivial = some sample qualifies, or the empty-result branch is exercised on a non-zero record')
 TRUSTED = [
     'Coq 8.16.1 kernel + vm_compute',
-    'hand-written model coq/model/M_im.v (sig_dur_idx, brac_idx, ...); tie = correspondence of this run (model/K_C10.v)',
+    'hand-written model coq/model/M_im.v (sig_dur_idx, brac_idx, ...); tie = correspondence of this run (model/K_C10.v) and, for calc_sig_dur_vals, '
+    'calc_sig_dur, calc_brac_dur and the alias calc_significant_duration, translator/py2coq_durations.py (re-run on every check) + the C10_*_is_source '
+    'theorems: trusted there is only the translator\'s reading of each whitelisted NumPy call (cumsum, **2, abs, >, <, &, where, arange, fancy indexing, '
+    '[0]/[-1] with IndexError) as the lib/NpList.v / lib/PyVal.v primitive, and AccSignal.npts == len(values)',
     'for calc_sig_dur the cumulative series handed to the model is the output of the public measure function (calc_arias_intensity or the custom callable) on the same signal; its own definition is C09',
     'exact arithmetic; index-valued outputs compared only where float and exact comparisons agree (fragile cases counted)',
     'Python harness',
@@ -31,9 +34,24 @@ def fragile_sig(cum, lo, hi):
     return False
 
 
+def regen_durations():
+    """re-translate the duration functions of eqsig/im.py into coq/gen/Gen_durations.v, and (for the inlined Arias series)
+    eqsig/im.py into coq/gen/Gen_quadrature.v (fail closed): the `*_is_source` theorems of Prop_C10 are then re-proved
+    against the code that is in the repo now"""
+    import os, sys
+    try:
+        sys.path.insert(0, os.path.join(core.VERIF, 'translator'))
+        import py2coq_numpy, py2coq_durations
+        py2coq_numpy.regenerate(repo=core.REPO)
+        py2coq_durations.regenerate(repo=core.REPO)
+    except Exception as e:
+        return 'py2coq_durations: %s: %s' % (type(e).__name__, e)
+    return None
+
+
 def run(rep, rng, tier):
     import eqsig
-    rep.prove('Prop_C10')
+    rep.prove('Prop_C10', gen_failed=regen_durations())
     cases, fragile = [], 0
     N = 60 if tier == 'quick' else 600
     measures = [('arias', None, eqsig.im.calc_arias_intensity), ('cav', eqsig.im.calc_cav, eqsig.im.calc_cav),
